@@ -53,7 +53,7 @@ LEVEL_TEXT = (
     "snippet of /repo and on generated programs (correspondence), and on the same inputs the property is checked on the real code: "
     "Parser tree of output vs input (context-free phase of Execer.parse, so bare subprocess lines have trees), format(format(s)) == format(s), "
     "comment texts, untokenisable input => FormatError and `xonsh format FILE` (default / --check / --diff) never rewrites it. The unchanged "
-    "code violates the property in the 21 ways listed under C17 in known_findings.json (each keyed by its mechanism and recognised only by its own classifier)."
+    "code violates the property in the ways listed as open under C17 in known_findings.json (each keyed by its mechanism and recognised only by its own classifier)."
 )
 LEVEL_NOTE = (
     "Trusted: Lean kernel + standard axioms; translator/c17.py; the harness (generators, tree comparison, classifiers). Not modelled: the "
@@ -98,13 +98,29 @@ class Impl:
                 raise common.InfraError(f"xonsh no longer has {getattr(obj, '__name__', type(obj).__name__)}.{attr}; the C17 harness has to be adapted")
         self.tables = [sorted(getattr(core, n)) for n in TABLE_NAMES]
         self.indent = core.DEFAULT_INDENT
+        # Which repairs does the running implementation have?  Probed on the witnesses of the findings they repair; the Lean model
+        # is run in the same variant (Model/Format.lean `Variant`), so the check is about the code that is there.
+        def _probe(fn):
+            try:
+                return bool(fn())
+            except Exception:  # noqa: BLE001
+                return False
+
+        self.variant = [
+            _probe(lambda: core.format_source("echo a,b\n") == "echo a,b\n"),  # guard: subprocess text is left alone
+            _probe(lambda: core._Formatter("x")._finalize("a\\\n\n") == "a\\\n\n"),  # eofFix: final backslash keeps its line end
+            _probe(lambda: core.format_source('x = """a  \nb"""\n') == 'x = """a  \nb"""\n'),  # litFix: literal lines not stripped
+        ]
+        # does _iter_tokens tell the tokenizer that the bytes are UTF-8 (no coding cookie applied to decoded text)?
+        self.cookie_ignored = _probe(lambda: core.format_source("# -*- coding: latin-1 -*-\nx = '\u00e9'\n").endswith("'\u00e9'\n"))
 
     # -- the real tokenizer, exactly as _Formatter._iter_tokens calls it
     def tokens(self, src):
         if src and not src.endswith("\n"):
             src += "\n"
         out = []
-        for t in self.tkz.tokenize(io.BytesIO(src.encode("utf-8")).readline, tolerant=False):
+        kw = {"encoding": "utf-8"} if self.cookie_ignored else {}
+        for t in self.tkz.tokenize(io.BytesIO(src.encode("utf-8")).readline, tolerant=False, **kw):
             out.append([Sym(self.tkz.tok_name.get(t.type, "OTHER")), t.string, t.start[0], t.start[1], t.end[0], t.end[1]])
         return src, out
 
@@ -182,13 +198,13 @@ def cpu_limit(seconds):
 # ------------------------------------------------------------------ the model
 def model_fmt(ctx, impl, src):
     s, toks = impl.tokens(src)
-    r = ctx.driver.call("c17.fmt", impl.tables, impl.indent, s, toks)
+    r = ctx.driver.call("c17.fmt", impl.variant, impl.tables, impl.indent, s, toks)
     return {"text": r[0], "safe": r[1], "src_seps_ws": r[2], "toks_clean": r[3]}
 
 
 def model_pieces(ctx, impl, src):
     s, toks = impl.tokens(src)
-    r = ctx.driver.call("c17.pieces", impl.tables, impl.indent, s, toks)
+    r = ctx.driver.call("c17.pieces", impl.variant, impl.tables, impl.indent, s, toks)
     return [{"tok": p[0], "rule": str(p[1]), "src": p[2], "text": p[3]} for p in r], toks, s
 
 
@@ -266,9 +282,24 @@ RULE_CLASS = {"commaA": "comma", "commaB": "comma", "colonA": "colon", "colonB":
               "opener": "bracket", "closer": "bracket", "contSub": "continuation", "contPy": "continuation", "rawCont": "continuation"}
 
 
-def finalize_py(text):
-    """_finalize, re-stated (used only to assemble counterfactual outputs)"""
-    return "\n".join(ln.rstrip(" \t") for ln in text.split("\n")).rstrip("\n") + "\n"
+def finalize_py(segs, variant=(False, False, False)):
+    """_finalize of the implementation's variant, re-stated (used only to assemble counterfactual outputs).
+    segs = [(text, is_token)]"""
+    keep, pos = set(), 0
+    for t, is_tok in segs:
+        if is_tok and variant[2]:
+            j = t.find("\n", 1)
+            while j != -1:
+                keep.add(pos + j)
+                j = t.find("\n", j + 1)
+        pos += len(t)
+    out, pos = [], 0
+    for ln in "".join(t for t, _ in segs).split("\n"):
+        end = pos + len(ln)
+        out.append(ln if end in keep else ln.rstrip(" \t"))
+        pos = end + 1
+    body = "\n".join(out).rstrip("\n")
+    return body + ("\n\n" if variant[1] and body.endswith(("\\", "\\\r")) else "\n")
 
 
 def real_tokens(toks):
@@ -329,8 +360,8 @@ def flips_of(pieces, toks, src):
     return out
 
 
-def assemble(pieces, repl):
-    return finalize_py("".join(repl.get(i, p["text"]) for i, p in enumerate(pieces)))
+def assemble(pieces, repl, variant=(False, False, False)):
+    return finalize_py([(repl.get(i, p["text"]), p["tok"]) for i, p in enumerate(pieces)], variant)
 
 
 def flip_class(f):
@@ -428,16 +459,29 @@ def comment_lead_variant(impl, src):
     return out if src.endswith("\n") else out[:-1]
 
 
-def trigger_variant(src):
-    """the source with one blank in front of every backslash-continuation line that begins with a subprocess opener in column 0
-    (leading blanks of such a line are insignificant); None when there is no such line"""
+_COOKIE = re.compile(r"^[ \t\f]*#.*?coding[:=][ \t]*([-\w.]+)", re.ASCII)
+
+
+def cookie_variant(src):
+    """the source with the coding cookie of its first two lines made unrecognisable (`coding` -> `c0ding`); None if there is none
+    or it names UTF-8"""
     lines = src.split("\n")
-    changed = False
-    for i in range(1, len(lines)):
-        if lines[i - 1].endswith("\\") and lines[i][:2] in ("$(", "$[", "![", "!("):
-            lines[i] = " " + lines[i]
-            changed = True
-    return "\n".join(lines) if changed else None
+    for i in range(min(2, len(lines))):
+        m = _COOKIE.match(lines[i])
+        if m and m.group(1).lower().replace("_", "-") not in ("utf-8", "utf8"):
+            lines[i] = lines[i].replace("coding", "c0ding", 1)
+            return "\n".join(lines)
+    return None
+
+
+def trigger_variant(src):
+    """the source with every backslash-continuation line that begins (after its blanks) with a subprocess opener joined to the
+    line it continues (a backslash-newline between tokens is whitespace); None when there is no such line.  A physical line
+    whose first characters are `$(` `$[` `![` `!(` switches the tokenizer to subprocess-comment mode: whether such a
+    continuation line starts in column 0 is up to the formatter's re-indentation, in both directions"""
+    out = re.sub(r"(?<=[ \t])\\\r?\n[ \t]*(?=\$\(|\$\[|!\[|!\()", "", src)
+    out = re.sub(r"\\\r?\n[ \t]*(?=\$\(|\$\[|!\[|!\()", " ", out)
+    return out if out != src else None
 
 
 # ------------------------------------------------------------------ judging one source text
@@ -476,12 +520,12 @@ class Judge:
     # -- model access
     def m_fmt(self, src):
         s, toks = self.impl.tokens(src)
-        r = self.driver.call("c17.fmt", self.impl.tables, self.impl.indent, s, toks)
+        r = self.driver.call("c17.fmt", self.impl.variant, self.impl.tables, self.impl.indent, s, toks)
         return {"text": r[0], "safe": r[1], "src_seps_ws": r[2], "toks_clean": r[3]}
 
     def m_pieces(self, src):
         s, toks = self.impl.tokens(src)
-        r = self.driver.call("c17.pieces", self.impl.tables, self.impl.indent, s, toks)
+        r = self.driver.call("c17.pieces", self.impl.variant, self.impl.tables, self.impl.indent, s, toks)
         return [{"tok": p[0], "rule": str(p[1]), "src": p[2], "text": p[3]} for p in r], toks, s
 
     # -- one text, no localisation
@@ -637,16 +681,19 @@ class Judge:
         * a comment that is not led by a blank (TAB or nothing before `#`): whether such a `#` starts a comment depends on the
           tokenizer's subprocess-comment mode, which differs between the formatter's pass, its second pass and the parser's lexer;
         * a form feed (xonsh's parser reads what follows a form-feed line differently);
-        * a backslash-continuation line that begins, in column 0, with `$(` `$[` `![` `!(`: a physical line beginning like that
-          switches the tokenizer to subprocess-comment mode for the rest of the text; the formatter re-indents the line, so its
-          second pass (and the parser reading its output) tokenise the rest differently;
-        * CR-LF line ends: NEWLINE / NL tokens are emitted as "\\n", also inside a macro body, whose raw text changes."""
+        * a backslash-continuation line that begins (after its blanks) with `$(` `$[` `![` `!(`: a physical line whose first
+          characters are such an opener switches the tokenizer to subprocess-comment mode for the rest of the text; the formatter
+          re-indents the line (into or out of column 0), so its second pass and the parser tokenise the rest differently;
+        * CR-LF line ends: NEWLINE / NL tokens are emitted as "\\n", also inside a macro body, whose raw text changes;
+        * a PEP 263 coding cookie in the first two lines: _iter_tokens hands UTF-8 bytes to a tokenizer that decodes them with
+          the cookie's codec, so every non-ASCII character comes out garbled."""
         if not f.get("m_ok"):
             return None  # like every other classifier: only when the faithful model predicts the implementation's output
         for key, variant in (("comment-not-led-by-a-blank", lambda t: comment_lead_variant(self.impl, t)),
                              ("form-feed-changes-how-the-parser-reads-the-input", lambda t: t.replace("\f", "") if "\f" in t else None),
                              ("subproc-comment-mode-trigger-moved-by-reindent", trigger_variant),
-                             ("crlf-inside-raw-text-becomes-lf", lambda t: t.replace("\r\n", "\n") if "\r\n" in t else None)):
+                             ("crlf-inside-raw-text-becomes-lf", lambda t: t.replace("\r\n", "\n") if "\r\n" in t else None),
+                             ("coding-cookie-applied-to-decoded-text", cookie_variant)):
             s2 = variant(f["src"])
             if s2 is None:
                 continue
@@ -683,7 +730,8 @@ class Judge:
     def revert(self, ctxt, classes, only_lines=None, only_class=None):
         """the output with the flips of the given classes put back as in the source (for `only_class`: only its flips on `only_lines`)"""
         ps, fl = self.flips(ctxt)
-        return assemble(ps, {f["i"]: f["gap"] for f in fl if flip_class(f) in classes and (flip_class(f) != only_class or f["line"] in only_lines)})
+        return assemble(ps, {f["i"]: f["gap"] for f in fl if flip_class(f) in classes and (flip_class(f) != only_class or f["line"] in only_lines)},
+                        self.impl.variant)
 
     def subproc_lines(self, ctxt, tree):
         """physical lines of the input that belong to a logical line which the input's tree holds as a subprocess command
@@ -770,7 +818,9 @@ class Judge:
         """known mechanisms recognisable from the two differing leaf values alone"""
         cls = diff_class(ctxs, a)
         if cls != "block-macro-body" and _only_trailing_blanks_removed(a, b):
-            return "literal-trailing-blanks-stripped"
+            # (repaired _finalize: lines ending inside a token are left alone — proved token-safe in the model — so what is still
+            #  stripped are the blanks that end a line of a macro call's raw text, between tokens)
+            return "raw-macro-line-trailing-blanks-stripped" if self.impl.variant[2] else "literal-trailing-blanks-stripped"
         if "JoinedStr" in ctxs and isinstance(a, str) and isinstance(b, str) and "format_spec" not in ctxs:
             if _strip_ws(a) == _strip_ws(b) and a.rstrip().endswith("="):
                 return "fstring-debug-expression-respaced"
@@ -864,15 +914,18 @@ class Judge:
                 # accounts for lie in subprocess argument lists, or (output unparsable) putting back its flips on the lines the
                 # Execer reads as subprocess commands is enough.  A change of Python structure is something else.
                 key = None
+                # (repaired code: in recognised subprocess text nothing is forced any more, so what is left of this mechanism is the
+                #  statement heuristic not recognising a command — `./x.sh a,b`, `@(cmd) a:b` — one finding whatever the rule)
+                name = "subproc-statement-not-recognised" if (self.impl.variant[0] and c != "eq") else "subproc-words-respaced-" + c
                 if classes_un <= {"subproc-args", "macro-call-args"}:
-                    key = "subproc-words-respaced-" + c
+                    key = name
                 elif classes_un <= {"subproc-args", "macro-call-args", "output-unparsable", "python-structure"}:
                     sub = self.subproc_lines(ctxt, pi[3][0])
                     if sub:
                         t = self.revert(ctxt, present - {"eof-newline"}, only_lines=sub, only_class=c)
                         alt = self.impl.parse(t + ("\n" if "eof-newline" in present else ""), keep=True, names=ctxt["names"])
                         if alt[0] == "tree" and not self.unexplained(pi, alt, ctxt)[0]:
-                            key = "subproc-words-respaced-" + c
+                            key = name
             elif c == "fstring-brace":
                 key = "fstring-nested-braces-glued"
             elif c == "fstring-spec":
@@ -1180,6 +1233,7 @@ DIRECTED = [
     "x = a - -b\n", "x = a ** -b\n", "x = ~a\n", "x = a if b else c\n", "x = [i for i in y if i]\n", "x = {k: v for k, v in y}\n", "x = lambda: 0\n", "x = a @ b\n", "x @= b\n", "x = 1_000 + 0x1F + 1e5 + 1. + .5 + 2j\n",
     "x = ...\n", "x = a.b.c\n", "x = a . b\n", "x = 1 .real\n", "x = a<b\n", "x = a>b\n", "x = a >= b\n", "x = a<=b\n", "x = a<<b\n", "x = a>>b\n", "x = a|b\n", "x = a&b\n", "x = a^b\n", "x = a//b\n", "x = a%b\n",
     "x = 1;\n", "x = 1 ;y = 2\n", "global a,b\n", "assert x,'m'\n", "raise E from e\n", "from a import (b,\n    c)\n", "from . import x\n", "from .. m import y\n", "é = 'ü'\n", "名 = 1\n",
+    "# -*- coding: latin-1 -*-\nx = '\u00e9 \u00fc'\n", "# vim: set fileencoding=cp1252 :\ny = \"\u00e9\"  # \u00fc\n", "./x.sh a,b c:d\n", "@(cmd) a,b\n",
     "$(ls)\nx = 1 # c\n", "![ls]\nx = [\n    1,\n    # c\n    2,\n]\n", "$[ls]\nx = (\n  # c\n  1)\n", "x = 1\n\f\ny = 2\n", "x = 1\r\ny = 2\r\n", "if x:\r\n    y = 1\r\n",
     "x = {\n}\n", "x = [\n\n\n    1,\n\n\n    2]\n", "f(\n    a,\n\n    b)\n", "x = (1,\n     2,\n     3)\n", "x = f(a,\n      b)\n", "x = [\n\t1,\n\t2,\n]\n",
     "x = \\\n  1\n", "with a as b, \\\n     c as d:\n    pass\n", "x = (a  # c\n     + b)\n", "def f(): return 1\n", "if x: y = 1\n", "else_ = 1\n", "in_ = 2; is_ = 3\n", "lambda_ = 1\n",
@@ -1305,7 +1359,7 @@ def stream_finalize(ctx, n):
         k = ctx.rng.randint(0, 40)
         t = "".join(ctx.rng.choice(alpha) for _ in range(k))
         real = fm._finalize(t)
-        m = ctx.driver.call("c17.finalize", t)
+        m = ctx.driver.call("c17.finalize", impl.variant[1], t)
         ctx.case(name, t, real != t, {"text": t, "finalized": real} if i < 3 else None)
         if m[0] != real or m[1] != real:
             ctx.disagree(name, {"text": t}, real, {"fold": m[0], "reference": m[1]})
@@ -1353,6 +1407,8 @@ def run(ctx):
     ]
     ctx.explanation = EXPLANATION
     ctx.extra["rule_tables_match_pinned"] = tables_pinned(impl)
+    ctx.extra["implementation_variant"] = {"subprocess_text_guard": impl.variant[0], "eof_backslash_keeps_line_end": impl.variant[1],
+                                           "literal_lines_not_stripped": impl.variant[2], "coding_cookie_ignored": impl.cookie_ignored}
     replay_known(ctx)
     stream_directed(ctx)
     stream_finalize(ctx, ctx.n(300, 5000))
